@@ -236,6 +236,8 @@ type Conn struct {
 	writes     []WriteRec
 	failNext   int
 	afterClose int32 // writes attempted after Close
+	// ReaderGone counts deliveries that nobody took within the watchdog although the connection was open.
+	ReaderGone int32
 	readers    int32
 }
 
@@ -333,6 +335,11 @@ func (c *Conn) Deliver(d []byte) bool {
 		return true
 	case <-c.closed:
 		return false
+	case <-time.After(20 * time.Second):
+		// nobody is reading although the connection is open: the reader goroutine is gone or stuck
+		atomic.AddInt32(&c.ReaderGone, 1)
+
+		return false
 	}
 }
 
@@ -353,6 +360,10 @@ type Collector struct {
 	CloseCalls int32
 	StartErr   error
 	CloseErr   error
+	// NoWaitOnClose: Close returns at once even while a tick callback is running (the Collector interface does not
+	// promise more; the library's own ticker collector does wait).
+	NoWaitOnClose bool
+	closedFlag    int32
 }
 
 // Start implements stun.Collector.
@@ -367,9 +378,13 @@ func (c *Collector) Start(_ time.Duration, f func(now time.Time)) error {
 // Close implements stun.Collector.
 func (c *Collector) Close() error {
 	c.W.CP("collector.Close.before")
-	c.mu.Lock()
-	c.closed = true
-	c.mu.Unlock()
+	if c.NoWaitOnClose {
+		atomic.StoreInt32(&c.closedFlag, 1)
+	} else {
+		c.mu.Lock()
+		c.closed = true
+		c.mu.Unlock()
+	}
 	atomic.AddInt32(&c.CloseCalls, 1)
 	c.W.CP("collector.Close.after")
 
@@ -380,7 +395,7 @@ func (c *Collector) Close() error {
 func (c *Collector) Tick(t time.Time) bool {
 	c.mu.Lock()
 	defer c.mu.Unlock()
-	if c.closed || c.f == nil {
+	if c.closed || c.f == nil || atomic.LoadInt32(&c.closedFlag) == 1 {
 		return false
 	}
 	c.W.CP("tick.begin")
